@@ -1,1 +1,292 @@
 // Kani contract harnesses for /repo/arrow-buffer/src/util/bit_chunk_iterator.rs (child module: sees private items via super::)
+//
+// Specification side (C19): bit(s, i) = (s[i/8] >> (i%8)) & 1 (spec::bit); a sequence of words
+// w_0, w_1, ... is read as the bit sequence whose position q is bit q%64 of w_(q/64).
+use super::*;
+#[path = "/verif/kani/support/spec.rs"]
+mod spec;
+use spec::*;
+
+/// bit p of a word (specification helper)
+fn wbit(w: u64, p: usize) -> bool {
+    (w >> p) & 1 == 1
+}
+
+// ------------------------------------------------------------------------------------------------
+// compute_prefix_mask, compute_suffix_mask, read_u64 (the private copy of this module)
+// ------------------------------------------------------------------------------------------------
+
+// Contract (C19): compute_prefix_mask(lead) for EVERY lead in 0..64: bit k of the mask is set
+// exactly when k >= lead (the lead padding positions are masked out, nothing else).
+// compute_suffix_mask(len, lead) for EVERY len, lead whose sum does not overflow: with
+// t = (len+lead) % 64: t == 0 => (all ones, 0 padding); otherwise bit k of the mask is set exactly
+// when k < t and the trailing padding is 64 - t.
+// @unit name=prefix_suffix_masks props=C19 kind=complete fns=compute_prefix_mask,compute_suffix_mask timeout=120
+#[kani::proof]
+fn prefix_suffix_masks() {
+    let lead: usize = kani::any();
+    let k: usize = kani::any();
+    kani::assume(k < 64);
+    if lead < 64 {
+        let m = compute_prefix_mask(lead);
+        assert!(wbit(m, k) == (k >= lead));
+    }
+    let len: usize = kani::any();
+    kani::assume(len <= usize::MAX - lead);
+    let (sm, tp) = compute_suffix_mask(len, lead);
+    let t = (len + lead) % 64;
+    if t == 0 {
+        assert!(sm == u64::MAX && tp == 0);
+    } else {
+        assert!(tp == 64 - t);
+        assert!(wbit(sm, k) == (k < t));
+    }
+    kani::cover!(lead == 0 && k == 0);
+    kani::cover!(lead == 63 && k == 63);
+    kani::cover!(t == 0 && len > 0);
+    kani::cover!(t == 63 && k == 62);
+    kani::cover!(t == 1 && k == 1);
+}
+
+// Contract (C19): read_u64(s) (module-private copy) for EVERY slice of 0..=8 bytes: bit p of the
+// result is bit(s, p) for p < 8*len(s) and 0 otherwise; bytes behind the slice are not read.
+// @unit name=chunk_read_u64_contract props=C19 kind=complete fns=read_u64 timeout=120
+#[kani::proof]
+#[kani::unwind(10)]
+fn chunk_read_u64_contract() {
+    let d: [u8; 10] = kani::any();
+    let n: usize = kani::any();
+    kani::assume(n <= 8);
+    let w = read_u64(&d[..n]);
+    let p: usize = kani::any();
+    kani::assume(p < 64);
+    assert!(wbit(w, p) == (p < 8 * n && bit(&d, p)));
+    kani::cover!(n == 0);
+    kani::cover!(n == 8 && wbit(w, 63));
+    kani::cover!(n == 3 && p == 24 && bit(&d, p));
+}
+
+// ------------------------------------------------------------------------------------------------
+// BitChunks / BitChunkIterator
+// ------------------------------------------------------------------------------------------------
+
+const NB: usize = 24;
+
+// Contract (C19): BitChunks::new(buf, off, len) on a 24-byte buffer for EVERY off, len with
+// off+len <= 192 (the range may end on the very last bit of the allocation, so any read behind the
+// addressed bytes is a memory-safety failure):
+//   chunk_len() == len/64, remainder_len() == len%64, num_u64s() == ceil(len/64),
+//   num_bytes() == ceil(len/8);
+//   iter() yields exactly chunk_len() words, word k has bit p == bit(buf, off + 64k + p);
+//   size_hint()/len() of the iterator count the words still to come, exactly, after every step,
+//   and next() keeps returning None at the end;
+//   remainder_bits() has bit p == bit(buf, off + 64*chunk_len + p) for p < len%64 and ZERO above
+//   (bits behind the range are not read as data);
+//   iter_padded() yields the same words, then remainder_bits(), then None.
+// @unit name=bit_chunks_contract props=C19 kind=bounded bound=buffer=24_bytes_all_offsets_and_lengths timeout=900 mem=3
+//       fns=BitChunks::new,BitChunks::iter,BitChunks::remainder_bits,BitChunks::remainder_len,BitChunks::chunk_len,BitChunks::num_u64s,BitChunks::num_bytes,BitChunkIterator::next,BitChunkIterator::size_hint,BitChunkIterator::len
+#[kani::proof]
+#[kani::unwind(10)]
+#[kani::stub(alloc::fmt::format, stub_format)]
+fn bit_chunks_contract() {
+    let d: [u8; NB] = kani::any();
+    let off: usize = kani::any();
+    let len: usize = kani::any();
+    kani::assume(off <= 8 * NB && len <= 8 * NB && off + len <= 8 * NB);
+    let c = BitChunks::new(&d, off, len);
+    assert!(c.chunk_len() == len / 64 && c.remainder_len() == len % 64);
+    assert!(c.num_u64s() == (len + 63) / 64 && c.num_bytes() == (len + 7) / 8);
+    let mut it = c.iter();
+    let mut words = [0u64; 3];
+    let mut m = 0usize;
+    assert!(it.len() == len / 64 && it.size_hint() == (len / 64, Some(len / 64)));
+    while let Some(w) = it.next() {
+        assert!(m < 3);
+        words[m] = w;
+        m += 1;
+        assert!(it.len() == len / 64 - m && it.size_hint() == (len / 64 - m, Some(len / 64 - m)));
+    }
+    assert!(m == len / 64);
+    assert!(it.next().is_none());
+    let rem = c.remainder_bits();
+    let i: usize = kani::any();
+    kani::assume(i < 8 * NB);
+    if i < len {
+        let got = if i / 64 < m { wbit(words[i / 64], i % 64) } else { wbit(rem, i % 64) };
+        assert!(got == bit(&d, off + i));
+    }
+    let p: usize = kani::any();
+    kani::assume(p < 64);
+    if p >= len % 64 {
+        assert!(!wbit(rem, p));
+    }
+    kani::cover!(len == 0);
+    kani::cover!(off == 0 && len == 192 && i == 191 && bit(&d, i));
+    kani::cover!(off % 8 == 5 && len == 187 && i == 186 && bit(&d, off + i));
+    kani::cover!(off % 8 == 3 && len % 64 == 9 && p == 9 && off + len + 1 < 192 && bit(&d, off + len)); // set bit right behind the range is masked
+    kani::cover!(off % 8 == 0 && len == 64 && m == 1);
+}
+
+// Contract (C19): iter_padded() on the same shapes: yields chunk_len() words equal to those of
+// iter(), then remainder_bits() (also when the remainder is empty: a zero word), then None.
+// @unit name=bit_chunks_iter_padded props=C19 kind=bounded bound=buffer=24_bytes_all_offsets_and_lengths timeout=900 mem=3
+//       fns=BitChunks::iter_padded,BitChunks::iter,BitChunks::remainder_bits,BitChunkIterator::next
+#[kani::proof]
+#[kani::unwind(10)]
+#[kani::stub(alloc::fmt::format, stub_format)]
+fn bit_chunks_iter_padded() {
+    let d: [u8; NB] = kani::any();
+    let off: usize = kani::any();
+    let len: usize = kani::any();
+    kani::assume(off <= 8 * NB && len <= 8 * NB && off + len <= 8 * NB);
+    let c = BitChunks::new(&d, off, len);
+    let mut it = c.iter_padded();
+    let mut words = [0u64; 4];
+    let mut m = 0usize;
+    while let Some(w) = it.next() {
+        assert!(m < 4);
+        words[m] = w;
+        m += 1;
+    }
+    assert!(m == len / 64 + 1);
+    let i: usize = kani::any();
+    kani::assume(i < 4 * 64);
+    // the padded sequence is the addressed bits followed by zeros up to the next multiple of 64
+    if i < 64 * m {
+        assert!(wbit(words[i / 64], i % 64) == (i < len && bit(&d, off + i)));
+    }
+    kani::cover!(len == 0 && m == 1);
+    kani::cover!(len == 192 && m == 4 && off == 0);
+    kani::cover!(off % 8 == 7 && len == 130 && i == 129 && bit(&d, off + i));
+}
+
+// Contract (C19): BitChunks::new panics (rejects) whenever the range does not fit the buffer
+// (ceil((off+len)/8) > len(buf), including usize overflow of off+len): if it returns, the range fits.
+// EVERY usize off and len, buffer of 0..=4 bytes.
+// @unit name=bit_chunks_new_rejects props=C19 kind=complete fns=BitChunks::new mayreject=1 timeout=240
+#[kani::proof]
+#[kani::stub(alloc::fmt::format, stub_format)]
+fn bit_chunks_new_rejects() {
+    let d: [u8; 4] = kani::any();
+    let n: usize = kani::any();
+    kani::assume(n <= 4);
+    let off: usize = kani::any();
+    let len: usize = kani::any();
+    let c = BitChunks::new(&d[..n], off, len);
+    assert!(off <= 8 * n && len <= 8 * n - off);
+    assert!(c.chunk_len() == 0 && c.remainder_len() == len);
+    kani::cover!(len == 32);
+    kani::cover!(len == 0 && off == 8 * n && n == 4);
+    kani::cover!(off == 31 && len == 1);
+}
+
+// ------------------------------------------------------------------------------------------------
+// UnalignedBitChunk
+// ------------------------------------------------------------------------------------------------
+
+#[repr(align(8))]
+struct Aligned([u8; 40]);
+
+// Contract (C19): UnalignedBitChunk::new(buf, off, len) for a buffer of n <= 24 bytes that starts
+// at ANY alignment (byte s in 0..8 of an 8-aligned allocation), EVERY off, len with
+// off+len <= 8n. Let w_0..w_(m-1) = iter(), lead = lead_padding(), trail = trailing_padding():
+//   len == 0: no words, no padding;
+//   len > 0: lead < 64, trail < 64, 64*m == lead + len + trail (so m is minimal), and position q
+//   of the word sequence is bit(buf, off + q - lead) for lead <= q < lead+len and ZERO in both
+//   paddings: prefix, chunks and suffix together enumerate exactly the addressed bits, and the
+//   bits sharing a byte/word with either end are not read as data;
+//   iter() is prefix() ++ chunks() ++ suffix();
+//   count_ones() == sum of popcount(w_k) (with the clause above: the number of set addressed bits;
+//   checked against the naive count by `unaligned_count_ones_naive`).
+// @unit name=unaligned_chunk_contract props=C19 kind=bounded bound=buffer<=24_bytes_any_start_alignment_all_offsets_and_lengths timeout=900 mem=3
+//       fns=UnalignedBitChunk::new,UnalignedBitChunk::iter,UnalignedBitChunk::lead_padding,UnalignedBitChunk::trailing_padding,UnalignedBitChunk::prefix,UnalignedBitChunk::suffix,UnalignedBitChunk::chunks,UnalignedBitChunk::count_ones,compute_prefix_mask,compute_suffix_mask,read_u64
+#[kani::proof]
+#[kani::unwind(10)]
+#[kani::stub(alloc::fmt::format, stub_format)]
+fn unaligned_chunk_contract() {
+    let a = Aligned(kani::any());
+    let s: usize = kani::any();
+    let n: usize = kani::any();
+    kani::assume(s < 8 && n <= NB);
+    let buf = &a.0[s..s + n];
+    let off: usize = kani::any();
+    let len: usize = kani::any();
+    kani::assume(off <= 8 * n && len <= 8 * n - off);
+    let u = UnalignedBitChunk::new(buf, off, len);
+    let (lead, trail) = (u.lead_padding(), u.trailing_padding());
+    let mut words = [0u64; 5];
+    let mut m = 0usize;
+    let mut ones = 0usize;
+    let mut it = u.iter();
+    while let Some(w) = it.next() {
+        assert!(m < 5);
+        words[m] = w;
+        m += 1;
+        ones += w.count_ones() as usize;
+    }
+    if len == 0 {
+        assert!(m == 0 && lead == 0 && trail == 0);
+    } else {
+        assert!(lead < 64 && trail < 64);
+        assert!(64 * m == lead + len + trail);
+    }
+    let q: usize = kani::any();
+    kani::assume(q < 5 * 64);
+    if q < 64 * m {
+        assert!(wbit(words[q / 64], q % 64) == (q >= lead && q < lead + len && bit(buf, off + (q - lead))));
+    }
+    // accessors agree with iter()
+    let np = if u.prefix().is_some() { 1 } else { 0 };
+    let ns = if u.suffix().is_some() { 1 } else { 0 };
+    assert!(m == np + u.chunks().len() + ns);
+    if np == 1 {
+        assert!(u.prefix() == Some(words[0]));
+    }
+    if ns == 1 {
+        assert!(u.suffix() == Some(words[m - 1]));
+    }
+    let k: usize = kani::any();
+    if k < u.chunks().len() {
+        assert!(u.chunks()[k] == words[np + k]);
+    }
+    assert!(u.count_ones() == ones);
+    kani::cover!(len == 0);
+    kani::cover!(n <= 8 && len > 0 && m == 1 && lead == 3 && trail == 2);
+    kani::cover!(n > 8 && n <= 16 && m == 2 && off % 8 == 5);
+    kani::cover!(n > 16 && u.chunks().len() == 3); // fully aligned: no prefix, no suffix
+    kani::cover!(n > 16 && m == 4 && np == 1 && ns == 1 && u.chunks().len() == 2 && lead > 8); // alignment padding in the prefix
+    kani::cover!(n > 16 && off / 8 > 0 && np == 1 && ns == 0 && trail == 0);
+    kani::cover!(n > 16 && off % 8 != 0 && (s + off / 8) % 8 == 0 && lead < 8 && m == 3); // prefix taken from the first aligned chunk
+}
+
+// Contract (C19): UnalignedBitChunk::count_ones() == the number of i in [0, len) with
+// bit(buf, off+i), counted naively bit by bit. Bounded: len <= 16 bits at EVERY offset 0..64 of a
+// 10-byte buffer at any start alignment (a naive count of a longer range against popcount is a
+// hard SAT instance; longer ranges are covered structurally by unaligned_chunk_contract).
+// @unit name=unaligned_count_ones_naive props=C19 kind=bounded bound=len<=16_bits_offset<64_buffer=10_bytes timeout=600
+//       fns=UnalignedBitChunk::count_ones,UnalignedBitChunk::new,UnalignedBitChunk::iter
+#[kani::proof]
+#[kani::unwind(18)]
+#[kani::stub(alloc::fmt::format, stub_format)]
+fn unaligned_count_ones_naive() {
+    let a = Aligned(kani::any());
+    let s: usize = kani::any();
+    kani::assume(s < 8);
+    let buf = &a.0[s..s + 10];
+    let off: usize = kani::any();
+    let len: usize = kani::any();
+    kani::assume(off < 64 && len <= 16);
+    let got = UnalignedBitChunk::new(buf, off, len).count_ones();
+    let mut want = 0usize;
+    let mut i = 0;
+    while i < 16 {
+        if i < len && bit(buf, off + i) {
+            want += 1;
+        }
+        i += 1;
+    }
+    assert!(got == want);
+    kani::cover!(len == 16 && want == 16 && off == 63);
+    kani::cover!(len == 0);
+    kani::cover!(len == 9 && want == 0 && buf[(off + 9) / 8] == 0xff);
+}
